@@ -18,14 +18,18 @@ import (
 // `_, used := …; for used { next++; _, used = … }` both reach the assignment with U.
 type pidFlow struct {
 	top bool
-	v   map[ssa.Value]bool
+	v   map[ssa.Value]bool // values equal to "the current nextPID is unusable" (in use / the PMT PID)
+	nv  map[ssa.Value]bool // values equal to its negation
 	u   bool
 }
 
 func (s pidFlow) clone() pidFlow {
-	o := pidFlow{top: s.top, u: s.u, v: map[ssa.Value]bool{}}
+	o := pidFlow{top: s.top, u: s.u, v: map[ssa.Value]bool{}, nv: map[ssa.Value]bool{}}
 	for k := range s.v {
 		o.v[k] = true
+	}
+	for k := range s.nv {
+		o.nv[k] = true
 	}
 	return o
 }
@@ -37,21 +41,31 @@ func meetFlow(a, b pidFlow) pidFlow {
 	if b.top {
 		return a.clone()
 	}
-	o := pidFlow{u: a.u && b.u, v: map[ssa.Value]bool{}}
+	o := pidFlow{u: a.u && b.u, v: map[ssa.Value]bool{}, nv: map[ssa.Value]bool{}}
 	for k := range a.v {
 		if b.v[k] {
 			o.v[k] = true
+		}
+	}
+	for k := range a.nv {
+		if b.nv[k] {
+			o.nv[k] = true
 		}
 	}
 	return o
 }
 
 func sameFlow(a, b pidFlow) bool {
-	if a.top != b.top || a.u != b.u || len(a.v) != len(b.v) {
+	if a.top != b.top || a.u != b.u || len(a.v) != len(b.v) || len(a.nv) != len(b.nv) {
 		return false
 	}
 	for k := range a.v {
 		if !b.v[k] {
+			return false
+		}
+	}
+	for k := range a.nv {
+		if !b.nv[k] {
 			return false
 		}
 	}
@@ -60,28 +74,73 @@ func sameFlow(a, b pidFlow) bool {
 
 // flowUnused reports whether U holds immediately before instruction at.
 func (a *anchors) flowUnused(f *ssa.Function, m ssa.Value, at ssa.Instruction) bool {
+	return a.flowPID(f, m, at, -1)
+}
+
+// flowNotConst: the same analysis for the fact "the current m.nextPID has been compared with the constant c after the last
+// store to it and found different" (`m.nextPID != c` / `m.nextPID == c` in either polarity).
+func (a *anchors) flowNotConst(f *ssa.Function, m ssa.Value, at ssa.Instruction, c int64) bool {
+	return a.flowPID(f, m, at, c)
+}
+
+func (a *anchors) flowPID(f *ssa.Function, m ssa.Value, at ssa.Instruction, cmpConst int64) bool {
 	isNext := func(v ssa.Value) bool { return isLoadOf(stripConv(v), m, a.fNextPID) }
 	// step applies one instruction
 	step := func(s *pidFlow, in ssa.Instruction) {
 		switch x := in.(type) {
 		case *ssa.Store:
 			if AddrPath(x.Addr).Is(m, a.fNextPID) {
-				s.v, s.u = map[ssa.Value]bool{}, false
+				s.v, s.nv, s.u = map[ssa.Value]bool{}, map[ssa.Value]bool{}, false
 			}
 		case *ssa.MapUpdate:
 			if isLoadOf(x.Map, m, a.fESContexts) {
-				s.v, s.u = map[ssa.Value]bool{}, false
+				s.v, s.nv, s.u = map[ssa.Value]bool{}, map[ssa.Value]bool{}, false
 			}
 		case *ssa.Call:
 			for _, arg := range x.Call.Args {
 				if arg == m {
-					s.v, s.u = map[ssa.Value]bool{}, false
+					s.v, s.nv, s.u = map[ssa.Value]bool{}, map[ssa.Value]bool{}, false
 				}
 			}
 			if x.Call.IsInvoke() && x.Call.Value == m {
-				s.v, s.u = map[ssa.Value]bool{}, false
+				s.v, s.nv, s.u = map[ssa.Value]bool{}, map[ssa.Value]bool{}, false
+			}
+		case *ssa.BinOp:
+			if cmpConst < 0 || (x.Op != token.EQL && x.Op != token.NEQ) {
+				return
+			}
+			l, c := x.X, x.Y
+			if _, isC := ssau.ConstInt(l); isC {
+				l, c = c, l
+			}
+			if k, isC := ssau.ConstInt(c); !isC || k != cmpConst || !isNext(l) {
+				return
+			}
+			kl, ok := stripConv(l).(*ssa.UnOp)
+			if !ok || kl.Block() != x.Block() {
+				return
+			}
+			for _, mid := range x.Block().Instrs[ssau.IndexOf(kl):ssau.IndexOf(x)] {
+				if st, ok := mid.(*ssa.Store); ok && AddrPath(st.Addr).Is(m, a.fNextPID) {
+					return
+				}
+				if c, ok := mid.(*ssa.Call); ok {
+					for _, arg := range c.Call.Args {
+						if arg == m {
+							return
+						}
+					}
+				}
+			}
+			if x.Op == token.EQL {
+				s.v[x] = true
+			} else {
+				s.nv[x] = true
 			}
 		case *ssa.Extract:
+			if cmpConst >= 0 {
+				return
+			}
 			lk, ok := x.Tuple.(*ssa.Lookup)
 			if !ok || !lk.CommaOk || x.Index != 1 || !isLoadOf(lk.X, m, a.fESContexts) || !isNext(lk.Index) {
 				return
@@ -137,6 +196,15 @@ func (a *anchors) flowUnused(f *ssa.Function, m ssa.Value, at ssa.Instruction) b
 					s.u = true
 				}
 			}
+			if s.nv[cond] {
+				trueSucc := 0
+				if neg {
+					trueSucc = 1
+				}
+				if p.Succs[trueSucc] == b {
+					s.u = true
+				}
+			}
 		}
 		// phis of b
 		idx := -1
@@ -156,6 +224,7 @@ func (a *anchors) flowUnused(f *ssa.Function, m ssa.Value, at ssa.Instruction) b
 			} else {
 				delete(s.v, ph)
 			}
+			delete(s.nv, ph)
 		}
 		for _, v := range add {
 			s.v[v] = true
@@ -167,7 +236,7 @@ func (a *anchors) flowUnused(f *ssa.Function, m ssa.Value, at ssa.Instruction) b
 		for _, b := range f.Blocks {
 			var s pidFlow
 			if b == f.Blocks[0] {
-				s = pidFlow{v: map[ssa.Value]bool{}}
+				s = pidFlow{v: map[ssa.Value]bool{}, nv: map[ssa.Value]bool{}}
 			} else {
 				s = pidFlow{top: true}
 				for _, p := range b.Preds {
